@@ -179,7 +179,7 @@ func VerifC13_OwnersReachable() {
 		inflight := (o.cur[0] >= 0 && w.ops[o.cur[0]].calls == 0) || (o.cur[1] >= 0 && w.ops[o.cur[1]].calls == 0)
 		if inflight && !o.closed {
 			vf.Reach("opt:in-flight")
-			vf.Assert("registry-references-owner-of-in-flight-operation", w.ioc.pending.static[o.fd] == &o.f.slot)
+			vf.Assert("registry-references-owner-of-in-flight-operation", w.ioc.pending.static[o.fd] == o.slot)
 		}
 	}
 	_ = internal.ReadEvent
